@@ -7,6 +7,15 @@ HERE = os.path.dirname(os.path.abspath(__file__))
 
 # property -> (technique, level text, level note, design ref)
 CLAIMED = {
+    'C10': ('dominance of every target mutation in fst_raw.py by the parse of the complete new text (CFG must-pass-through); '
+            'validate-then-mutate analysis (as C12) with parser entry points as rejecting calls and return-value-correlated '
+            'callee effects; lock / attachment-point checks of the raw entry points',
+            'Static, atomicity ordering only: every modification of the live tree by the raw reparse comes after the parse that '
+            'can reject the text, nothing can reject afterwards, raw reparse always runs under the raw modification lock and '
+            'attaches new nodes only through _set_ast / root line replacement (root identity). Whether the incremental reparse '
+            'equals a from-scratch parse is value-level and NOT decided (the property text itself records disagreements).',
+            'Trusts parser naming (fromsrc / parse_*), tree-derivation conventions of sa/effects.py.',
+            'DESIGN.md §2 C10'),
     'C07': ('copy-mode effect freedom by constant specialisation (cut=False) of every get handler: interprocedural tree-mutation '
             'summaries, path-sensitive constant propagation and branch pruning, alias-vs-element derivation; acquire/release '
             'typestate for temporary normalisations; structural checks of the copy / cut entry points',
@@ -108,7 +117,7 @@ NOT_APPLICABLE = {
            'conservation is value-level. Its two structural clauses are checked as R5.1 and R7.3.',
 }
 
-PLANNED = ['C01', 'C02', 'C04', 'C05', 'C06', 'C10', 'C11', 'C15']
+PLANNED = ['C01', 'C02', 'C04', 'C05', 'C06', 'C11', 'C15']
 
 
 def main():
